@@ -78,8 +78,44 @@ def lookup_name(I, name: str, st: State) -> Any:
         return SClass(name, None) if name in EXC_BUILTINS else SBuiltin(name)
     if name in ("True", "False", "None"):
         return {"True": True, "False": False, "None": None}[name]
+    # a module-level table of classes (e.g. a priority tuple used with isinstance): tuple/list of class names or `A | B` unions
+    tbl = _class_table(I, mod, name)
+    if tbl is not None:
+        return tbl
     # module-level non-constant global
     return Opaque(f"global:{mod}.{name}")
+
+
+def _class_table(I, mod: str, name: str):
+    try:
+        tree = extract.module_ast(mod)
+    except Exception:  # noqa: BLE001
+        return None
+    asg = [n for n in tree.body if isinstance(n, (ast.Assign, ast.AnnAssign)) and any(isinstance(t, ast.Name) and t.id == name for t in (n.targets if isinstance(n, ast.Assign) else [n.target]))]
+    if len(asg) != 1 or asg[0].value is None or not isinstance(asg[0].value, (ast.Tuple, ast.List)):
+        return None
+
+    def one(e):
+        if isinstance(e, ast.Name):
+            r = I.pkg.resolve_name(mod, e.id)
+            if r and r[0] == "class":
+                m, q = r[1].split(":")
+                return SClass(q, m)
+            return None
+        if isinstance(e, ast.BinOp) and isinstance(e.op, ast.BitOr):
+            l, r2 = one(e.left), one(e.right)
+            if l is None or r2 is None:
+                return None
+            return (l if isinstance(l, tuple) else (l,)) + (r2 if isinstance(r2, tuple) else (r2,))
+        if isinstance(e, ast.Tuple):
+            xs = [one(x) for x in e.elts]
+            return None if any(x is None for x in xs) else tuple(y for x in xs for y in (x if isinstance(x, tuple) else (x,)))
+        return None
+
+    items = [one(e) for e in asg[0].value.elts]
+    if any(x is None for x in items):
+        return None
+    return STuple(items) if isinstance(asg[0].value, ast.Tuple) else SList(items, fresh_obj=False)
 
 
 def ev(I, n: ast.AST, st: State) -> Iterator[tuple[State, Any]]:
